@@ -36,7 +36,18 @@ class Driver:
             # (only in the database-level ties: the I/O checks watch the directory)
             if decoys:
                 self._decoy(tf, "decoy0.csv", {"delimiter": "\t", "quotechar": "|"})
-            self.db = tf.TinyFlux(self.path, auto_index=auto, **self.csv_kwargs)
+            if decoys:
+                # opened by a RELATIVE path, after which the process changes its working directory: the database stays the file it was opened with
+                self._cwd0 = os.getcwd()
+                elsewhere = os.path.join(workdir, "cwd")
+                os.makedirs(elsewhere, exist_ok=True)
+                os.chdir(workdir)
+                try:
+                    self.db = tf.TinyFlux("db.csv", auto_index=auto, **self.csv_kwargs)
+                finally:
+                    os.chdir(elsewhere)
+            else:
+                self.db = tf.TinyFlux(self.path, auto_index=auto, **self.csv_kwargs)
             if decoys:
                 self._decoy(tf, "decoy1.csv", {"delimiter": ":", "quotechar": "~", "lineterminator": "\n"} if self.csv_kwargs.get("delimiter") != ":" else {})
         else:
@@ -54,6 +65,9 @@ class Driver:
             pass
 
     def close(self):
+        if getattr(self, "_cwd0", None):
+            os.chdir(self._cwd0)
+            self._cwd0 = None
         for d in [self.db] + self.decoys:
             try:
                 d.close()
@@ -263,13 +277,17 @@ def run_history(tf, csv, auto, ops, workdir, csv_kwargs=None):
     os.makedirs(tmp, exist_ok=True)
     old = tempfile.tempdir
     tempfile.tempdir = tmp
-    d = Driver(tf, csv, auto, workdir, csv_kwargs, decoys=True)
+    cwd0 = os.getcwd()
+    d = None
     outs = []
     try:
+        d = Driver(tf, csv, auto, workdir, csv_kwargs, decoys=True)
         for o in ops:
             outs.append(d.do(o))
     finally:
-        d.close()
+        if d is not None:
+            d.close()
+        os.chdir(cwd0)
         tempfile.tempdir = old
         shutil.rmtree(workdir, ignore_errors=True)
     return outs
